@@ -8,6 +8,15 @@ CHECKS={
    text='Explicit-state BFS to fixpoint over the (state, claimant) space of a task (and an epic) where every transition is one real ergo command, under every request shape (8 state values x 4 claim values x --agent x 3 input modes x set/claim <id>/new); oracle = literal copy of the documented transition table and claim rule (accept iff allowed, exact resulting state, rejected => untouched). Finite space, explored completely.',
    note='Abstract state = (state, claimant): set/claim decisions read nothing else of a task. In-process command server validated against spawned production binaries on every run; each violation re-confirmed 5x with spawned processes.',
    technique='explicit-state BFS over real commands + reference model'),
+
+ 'C10': dict(engine='SEQ', level='model_checking', design='3/C10',
+   text='Exhaustive cross product of request shapes (command x field subsets up to pairs x every value incl. poisoned ones x 10 targets incl. pruned/unknown ids x 3 input modes; all sequence pairs/triples over 8 ids of every kind; plan rejection catalogue; usage errors; every mutating command under a held flock) executed as real commands on several pre-states; oracle: exit != 0 => .ergo byte-identical (hence observable state identical), otherwise full observable comparison. Known findings K1-K3 are matched by call-site signature only.',
+   note='Finite catalogue over small value domains, not all inputs. Byte-identical store => identical observations relies on reads being a function of the log (C12). Server backend conformance-checked against spawned binaries each run.',
+   technique='exhaustive small-scope enumeration of failing requests over real commands'),
+ 'C14': dict(engine='SEQ', level='model_checking', design='3/C14',
+   text='Explicit-state BFS to fixpoint (canonical labelled graph as key) over <=2 (thorough 3) tasks and <=2 epics where every epic argument class (live epic, plain task, unknown, pruned, own id, empty) is tried through new/set in all 3 input modes, interleaved with state changes, prune, compact and plan; in every reached state each task epic_id must name a live epic, epics have none, bad arguments must be rejected with the log unchanged, and human `list --all` must show every live item exactly once under its own epic.',
+   note='State key abstracts titles/bodies/history (argued in DESIGN 2.4). Bounded item counts. Server backend conformance-checked; violations confirmed 5x with spawned processes.',
+   technique='explicit-state BFS over real commands + invariant'),
 }
 NA_REASON='check not built yet (work in progress; design in DESIGN.md)'
 m={"version":1,
